@@ -130,15 +130,15 @@ func (cx *c20Ctx) pathEP(fi *FuncInfo, tab *c20Table) {
 	for _, st := range run.rets {
 		for _, ev := range st.eventsOf("request") {
 			pos = ev.call.Pos()
-			if !c20IsInput(ev.recv, "recv") {
+			if !c20IsInput(cx.getArg(ev, cx.get.ds), "recv") {
 				r.Bad(c, ev.call.Pos(), "`%s` is not called on the method's receiver: another datasource's client/limiter/base URL would be used", src(r.P.Fset, ev.call.Fun))
 				return
 			}
-			if len(ev.args) != 3 || !c20IsInput(ev.args[0], "p0") {
+			if !c20IsInput(cx.getArg(ev, cx.get.ctx), "p0") {
 				r.Bad(c, ev.call.Pos(), "`%s` is not made with the call's context parameter", src(r.P.Fset, ev.call))
 				return
 			}
-			u := ev.args[1]
+			u := cx.getArg(ev, cx.get.url)
 			if u.k != c20kStr {
 				r.Unknown(c, ev.call.Pos(), "URL argument of `%s` could not be evaluated: %s", src(r.P.Fset, ev.call), u.String())
 				return
